@@ -52,6 +52,26 @@ def type_mismatches(p, cfg):
     return out
 
 
+def has_null(j):
+    if j is None:
+        return True
+    if isinstance(j, dict):
+        return any(has_null(x) for x in (j.get("a") or [])) or any(has_null(kv[1]) for kv in (j.get("o") or []))
+    return False
+
+
+def with_empty_references(rng, p):
+    """keys whose whole value is made of references to an empty string (`"emp": ""`, `"tit": "$t(emp)"`): values, not nulls"""
+    for (ns, l), tree in p["files"].items():
+        pre = (ns + ":") if ns else ""
+        if l == p["default"] or rng.chance(2, 3):
+            tree["o"].append(["emp", ""])
+        if l == p["default"] or rng.chance(2, 3):
+            tree["o"].append(["tit", f"$t({pre}emp)"])
+            tree["o"].append(["tit2", f"$t({pre}emp)$t({pre}emp)"])
+    return p
+
+
 def make_oracle(suppress):
     def oracle(ctx, p, o, i):
         mm = type_mismatches(p, o["impl"]["cfg"]) if "cfg" in o["impl"] else []
@@ -66,6 +86,16 @@ def make_oracle(suppress):
         if o["ci"].get("err") == "SubKeyMissmatch" and not mm:
             report_violation(ctx, "diagnostics:subkey-mismatch-spurious", {"case": project_text(p), "implementation": o["impl"].get("result")})
             return
+        if o["ci"].get("err") == "ExplicitDefaultInDefault" and "cfg" in o["impl"]:
+            # `null` in the default locale is an error — only a written `null` is: a value that happens to be empty (references to
+            # empty strings, `""`) is a value
+            dflt = o["impl"]["cfg"]["default"]
+            if not any(has_null(t) for (ns, l), t in p["files"].items() if l == dflt):
+                report_violation(ctx, "diagnostics:explicit-default-spurious", {
+                    "case": project_text(p), "implementation": o["impl"].get("result"),
+                    "expected_by_spec": "no `null` is written anywhere in the default locale: nothing to report there",
+                    "harness": "parser_h pipeline" + (" (suppress)" if suppress else "")})
+                return
         if "ok" not in o["ci"]:
             ctx.seen(project_text(p), nontrivial=False)
             return
@@ -83,10 +113,11 @@ def make_oracle(suppress):
         ctx.count("expected_missing", len(miss))
         ctx.count("expected_surplus", len(surp))
         bad = None
-        if sorted(got_m) != sorted(miss):
-            bad = ("missing", sorted(miss), sorted(got_m))
-        elif sorted(got_s) != sorted(surp):
-            bad = ("surplus", sorted(surp), sorted(got_s))
+        srt = lambda xs: sorted(xs, key=lambda t: (t[0], t[1] or "", t[1] is None, t[2]))     # (the namespace may be None)
+        if srt(got_m) != srt(miss):
+            bad = ("missing", srt(miss), srt(got_m))
+        elif srt(got_s) != srt(surp):
+            bad = ("surplus", srt(surp), srt(got_s))
         if any(w["locale"] == cfg["default"] and w["w"] in ("missing", "surplus") for w in res["warnings"]):
             bad = ("diagnostic for the default locale", [], res["warnings"])
         if bad:
@@ -121,8 +152,10 @@ def run(ctx):
     opts = {"fk": False}
     projects = [proj.gen_project(rng, opts) for _ in range(n)]
     generic_pipeline_check(ctx, [("I18nVerif.Theorems.C07", "C07_"), ("I18nVerif.Theorems.C07Pipeline", "C07_")], projects, make_oracle(False), "C07")
+    projects3 = [with_empty_references(rng, proj.gen_project(rng, opts)) for _ in range(n // 4)]
+    generic_pipeline_check(ctx, [], projects3, make_oracle(False), "C07-empty-references")
     projects2 = [proj.gen_project(rng, opts) for _ in range(n // 2)]
     generic_pipeline_check(ctx, [], projects2, make_oracle(True), "C07-suppress", suppress=True)
     ctx.assumptions += PARSER_ASSUMPTIONS
-    finish_broken(ctx, f"{len(projects) + len(projects2)} projects in two feature builds")
+    finish_broken(ctx, f"{len(projects) + len(projects2) + len(projects3)} projects in two feature builds")
     write_evidence(ctx, RULE)
